@@ -642,9 +642,10 @@ class Mesh:
             logger.debug(msg)
             return False
 
-        # check that all points are at least in some element
+        # check that all points are at least in some element; for higher order
+        # meshes t has only the vertices and dofs has all points
         if len(np.setdiff1d(np.arange(self.p.shape[1]),
-                            np.unique(self.t))) > 0:
+                            np.unique(self.dofs.element_dofs))) > 0:
             msg = "Mesh contains a vertex not belonging to any element."
             if raise_:
                 raise ValueError(msg)
